@@ -948,3 +948,83 @@ def parse_arm_faithful(F):
     if n_match < 100:
         raise CheckError("matches over wasmparser enums not found (facts changed?): %d" % n_match)
     return r
+
+
+def name_index_selects(F):
+    """R-NAME-INDEX: while the function-name subsection is parsed, the function that receives a name is *selected by the
+    index the entry carries*: each write of a name happens to an element that was looked up with a value derived from
+    `naming.index` (`get_mut(rel_idx)`, `[idx]`, `.nth(idx)`), or under an equality test against such a value.  A write
+    whose target comes from merely advancing an iterator pairs the k-th entry with the k-th function: name maps may
+    omit functions, so every name after the first omitted one lands on the wrong function."""
+    from vlib.facts import binding_site, guard_conditions
+    r = RuleResult("R-NAME-INDEX",
+                   "in parse_internal's wasmparser::Name::Function arm every name write addresses its function through the entry's index (indexed lookup or equality guard), never through iteration order alone")
+    pi = F.one_fn(name="parse_internal", self_adt="Module")
+    r.analysed.append(pi["path"])
+    n = 0
+    for m in walk(pi["body"]):
+        if m.get("k") != "Match" or (m.get("scrut_ty") or "").split("<")[0] != "wasmparser::Name":
+            continue
+        for arm in m["arms"]:
+            if ("wasmparser::Name", "Function") not in pat_variants(arm["pat"])[0]:
+                continue
+            body = arm["body"]
+
+            def idx_derived(e, depth=0):
+                if depth > 4 or not isinstance(e, (dict, list)):
+                    return False
+                for y in walk(e):
+                    if y.get("k") == "Field" and y["name"] == "index":
+                        return True
+                for y in walk(e):
+                    if y.get("k") == "Path" and y.get("res", {}).get("r") == "local":
+                        _p, scr, _k = binding_site(body, y["res"]["hid"])
+                        if scr is not None and scr is not e and _k != "for" and idx_derived(scr, depth + 1):
+                            return True
+                return False
+
+            def for_bound(e, depth=0):
+                """locals in `e` (transitively) — is any bound by the loop over the names themselves? those carry the entry, fine"""
+                return False
+            for x in walk(body):
+                if x.get("k") != "Assign":
+                    continue
+                pp = place_path(x["lhs"]) or ""
+                if not (pp.endswith(".custom_name") or pp.endswith(".name") or pp.endswith(".func_name")):
+                    continue
+                n += 1
+                # the element written: root local of the place, and how it was obtained
+                root = peel(x["lhs"])
+                while isinstance(root, dict) and root.get("k") in ("Field", "Index", "Deref", "Unary", "MethodCall"):
+                    if root.get("k") == "Index" and idx_derived(root["index"]):
+                        break
+                    if root.get("k") == "MethodCall" and idx_derived(root.get("args") or []):
+                        break
+                    root = peel(root.get("base") or root.get("recv") or root.get("a") or root.get("e") or {})
+                by_lookup = False
+                if isinstance(root, dict) and root.get("k") in ("Index", "MethodCall"):
+                    by_lookup = True
+                elif isinstance(root, dict) and root.get("k") == "Path" and root.get("res", {}).get("r") == "local":
+                    _p, scr, kind = binding_site(body, root["res"]["hid"])
+                    if scr is not None and kind != "for" and idx_derived(scr):
+                        by_lookup = True
+                by_eq = False
+                for pol, cond in guard_conditions(body, x):
+                    if pol is True:
+                        for c in walk(cond):
+                            if c.get("k") == "Binary" and c.get("op") == "==" and (idx_derived(c["a"]) or idx_derived(c["b"])):
+                                by_eq = True
+                            if c.get("k") == "MethodCall" and c["method"] == "eq" and idx_derived([c["recv"]] + (c.get("args") or [])):
+                                by_eq = True
+                    elif pol == "pat":
+                        if idx_derived(cond[1]) and not (peel(cond[1]).get("k") == "Path"):
+                            by_lookup = True
+                ok = by_lookup or by_eq
+                r.ob(ok, {"write": pp, "selected by": "indexed lookup" if by_lookup else ("equality with the entry's index" if by_eq else "iteration order")})
+                if not ok:
+                    r.violate("%s | %s written by iteration order" % (pi["path"], pp.split(".")[-1]), F.loc(pi, x),
+                              "the function-name parser writes `%s` to an element that is not looked up by, or compared for equality with, the entry's index: the k-th name goes to the k-th function, and a name map that omits a function shifts every later name onto the wrong one" % pp)
+    r.count("name_writes", n)
+    if n < 2:
+        raise CheckError("function-name writes not found in parse_internal's Name::Function arm: %d" % n)
+    return r
